@@ -27,7 +27,7 @@ CRVALS = [(180.0, -45.0), (0.001, 10.0), (359.999, -85.0), (45.0, 80.0), (120.0,
 SCALES = [1.0, 10.0, 60.0]
 SHAPE = (200, 300)  # rows, cols
 SIZES = [1.0, 5.0, 20.0]
-RATIOS = [1.0, 0.5]
+RATIOS = [1.0, 0.5, 0.997]      # 0.997: nearly circular, the pixel-space axes can swap order across the image
 ANGLES = [-170.0, -45.0, 0.0, 30.0, 90.0, 180.0]
 
 
